@@ -177,8 +177,8 @@ impl Prop for C09Peer {
     }
     fn runs(&self, tier: Tier) -> u64 {
         match (tier, cfg!(debug_assertions)) {
-            (Tier::Quick, true) => 300_000,
-            (Tier::Quick, false) => 100_000,
+            (Tier::Quick, true) => 1_000_000,
+            (Tier::Quick, false) => 500_000,
             (Tier::Thorough, true) => 40_000_000,
             (Tier::Thorough, false) => 16_000_000,
         }
